@@ -6,6 +6,8 @@ use crate::util::*;
 use serde_json::json;
 
 pub struct C07 {
+    /// languages for the generated store of 110 records (limit 12, more than 100 candidates): four insertion orders
+    big: Vec<L>,
     sets: Vec<MultiSet>,
     perms: Vec<Vec<Vec<usize>>>,
 }
@@ -50,15 +52,58 @@ impl C07 {
             let menu: Vec<String> = vec![lex[4].clone(), lex[5].clone(), lex[6].clone(), format!("{} {}", lex[4], lex[9])];
             sets.push(MultiSet { l, name: "stores<=3 over 4 lexicon titles, ratings around 2^63".into(), menu, lo: 2, hi: 3, queries: crate::doms::word_queries(&lex, 1), limits: None, distinct_ratings: true, huge_ratings: true, block: 10 });
         }
-        C07 { sets, perms: (0..=5).map(permutations).collect() }
+        C07 { big: tier.pick(vec![L::None, L::En], LANGS.to_vec()), sets, perms: (0..=5).map(permutations).collect() }
+    }
+}
+
+impl C07 {
+    /// 110 records that all share grams with the queries, pairwise distinct ratings, limit 12 (|store| <= 10*limit):
+    /// ascending, descending, interleaved and rotated insertion must give the same hit lists.
+    fn run_big(&self, l: L, cx: &mut Cx) {
+        let (w1, w2) = if l.is_cyrillic() { ("кружка", "металл") } else { ("mug", "metal") };
+        let n = 110usize;
+        let recs: Vec<Rec> = (0..n).map(|i| rec(1000 + i, &match i % 3 { 0 => format!("{} {}", w1, i), 1 => format!("{} {} {}", w2, w1, i), _ => format!("{}{}", w1, i) }, i * 13 + 5)).collect();
+        let mut orders: Vec<Vec<usize>> = vec![(0..n).collect(), (0..n).rev().collect()];
+        orders.push((0..n).map(|i| if i % 2 == 0 { i / 2 } else { n - 1 - i / 2 }).collect());
+        orders.push((0..n).map(|i| (i + 37) % n).collect());
+        let queries: Vec<String> = vec![w1.chars().take(1).collect(), w1.to_string(), format!("{} {}", w2, w1), String::new()];
+        let mut base: Vec<Hits> = Vec::new();
+        for (oi, order) in orders.iter().enumerate() {
+            let ordered: Vec<Rec> = order.iter().map(|i| recs[*i].clone()).collect();
+            let Ok(mut st) = cx.build(l, &ordered, Some(12), None) else { return };
+            cx.state();
+            for (qi, q) in queries.iter().enumerate() {
+                cx.eval();
+                let Ok(hits) = cx.search(&mut st, q) else { return };
+                if oi == 0 {
+                    base.push(hits);
+                    continue;
+                }
+                cx.validated();
+                let order_name = ["ascending", "descending", "interleaved", "rotated by 37"][oi];
+                if hits != base[qi] {
+                    cx.fail("C07:insertion-order-changes-hit-list(110 records, limit 12)", || {
+                        serde_json::json!({"lang": l.tag(), "store": format!("110 records '{} i' / '{} {} i' / '{}i', rating 13*i+5", w1, w2, w1, w1), "limit": 12, "insertion_order": order_name, "query": q,
+                                            "observed_ids": ids(&hits), "ascending_insertion_ids": ids(&base[qi])})
+                    });
+                } else if hits.len() >= 2 {
+                    cx.nontrivial();
+                }
+            }
+        }
     }
 }
 
 impl Prop for C07 {
     fn doms(&self) -> Vec<Dom> {
-        self.sets.iter().map(|s| Dom::new(format!("{}/{}", s.l.tag(), s.name), crate::util::seqs_len(s.menu.len() as u64, s.lo, s.hi), s.block)).collect()
+        let mut d: Vec<Dom> = self.sets.iter().map(|s| Dom::new(format!("{}/{}", s.l.tag(), s.name), crate::util::seqs_len(s.menu.len() as u64, s.lo, s.hi), s.block)).collect();
+        d.push(Dom::new("generated store of 110 records, limit 12: four insertion orders", self.big.len() as u64, 1));
+        d
     }
     fn run(&self, dom: usize, idx: u64, cx: &mut Cx) {
+        if dom == self.sets.len() {
+            return self.run_big(self.big[idx as usize], cx);
+        }
         let set = &self.sets[dom];
         let l = set.l;
         let recs = store_at(set, idx);
